@@ -422,6 +422,13 @@ func corrMain(args []string) {
 	}
 	close(ch)
 	wg.Wait()
+	if cf.replay == "" {
+		n := 20000
+		if cf.tier == "thorough" {
+			n = 400000
+		}
+		watchRace(sum, cf.seed, n)
+	}
 	sum.Cases = len(cases)
 	sum.finish(start, cf.out)
 }
@@ -519,7 +526,7 @@ func runCorr(sh *shard, c *corrCase, expSnaps []string, sum *sumT) {
 		}
 		return &dev.Request{Value: fmt.Sprintf("%s|0|pn%d", token, nid)}
 	}
-	ctx, cancel := context.WithCancel(context.Background())
+	ctx, cancel := newCancelCtx(c.id%2 == 1)
 	defer cancel()
 	if len(c.seq) > 0 && c.seq[0].kind == 'c' && c.expected() == 0 {
 		// a context end that is the first item precedes the call when the call targets nothing (its exhaustion
